@@ -501,7 +501,8 @@ def r10(ctx):
         return
     ctx.need(len(rv) == 1, f"{f.site()}: {len(rv)} calls of reveal_plates")
     c = rv[0]
-    src = inline(c.args[0], env) if c.args else None
+    a0 = c.args[0] if c.args else kwargs(c).get("screen")
+    src = inline(a0, env) if a0 is not None else None
     ids = c.args[1] if len(c.args) > 1 else kwargs(c).get("plate_ids")
     ids_i = inline(ids, env) if ids is not None else None
     ok_args = src is not None and U(src).replace(" ", "") == "Screen.load_h5(args.screen)" and ids_i is not None and "args.plate_id" in U(ids_i)
